@@ -112,7 +112,7 @@ PROPS = {
     "C11": dict(
         theorems=["readSite_eq_spec", "readSite_lengths", "readSite_stateless", "run_eq_sum", "run_append", "run_perm"],
         nontrivial=r"^c11-(mem-.*(SP|SI|PI|SPI)|cli-)",
-        rule="all 36 ordered pairs (predecessor kind, successor kind) of the six site kinds x 4 projection settings; 120 (thorough 1000) random sequences of 2-12 records x every split point (both parts) x 5 (thorough 20) "
+        rule="all 64 ordered pairs (predecessor kind, successor kind) of eight site kinds (complete, exactly sufficient through a missing / a multiallelic sample, insufficient in either population, complete with other counts, every selected sample uncalled, every sample uncalled) x 4 projection settings; 120 (thorough 1000) random sequences of 2-12 records x every split point (both parts) x 5 (thorough 20) "
              "permutations, in-process with the per-record site kind sequence compared item by item; CLI on concatenated / permuted VCF and BCF; non-trivial = distinct request mixing at least two site kinds",
         exhaustive=True, assumptions=["in-process cases drive the real site::Reader through an in-memory genotype::Reader; CLI cases run the real binary on generated VCF text / BCF (noodles writer, or a hand-written BCF2.2 encoder for mixed ploidy) / BGZF", "noodles (VCF/BCF/BGZF parsing), clap and env_logger are exercised, not modelled"],
     ),
@@ -203,5 +203,19 @@ PROPS.update({
              "replace the two monomorphic entries by random values, multiply by a constant in {2, 0.5, 3, 0.1, 1000, 7.25, 0.001}, swap the two populations}, and f3 / f4 against the f2 combination of the marginals computed with the real marginalize; "
              "both values compared with the model, and the relation itself re-checked on the model values in exact arithmetic (a relation failing there is reported as a model-level violation); non-trivial = every distinct request",
         exhaustive=False, assumptions=ST_ASSUME + ["swapping, scaling and replacing entries are done by the harness on the data (there is no sfs operation for them); folding and marginalisation use the real code"],
+    ),
+})
+
+PROPS.update({
+    "C17": dict(
+        theorems=["products_fit", "strides_fit", "absurd_shapes_rejected", "flat_index_in_range", "pixy_guards", "kinship_guards", "theta_guards", "fst_guards", "dispatch_total",
+                  "hyper_guards", "individuals_guard", "writer_guards", "map_shape_guard"],
+        nontrivial=r"^(pncalc-|pnfold-|pnspec-|pnview-|pnany-\w+-err)",
+        rule="outcome classes {OK, ERR, PANIC}: the full grid statistic(14) x shapes with 1-4 axes of length 0..4 (all 780 shapes in thorough; 1-3 axes + a fifth of the 4-axis shapes in quick) in-process (each statistic separately, panics caught), a sample of it through `sfs stat` / `sfs fold --fill *` / `sfs view [-O npy]` on text inputs (zero-element spectra included), view option combinations on degenerate shapes, "
+             "27 empty / 1-7 byte / header-only inputs x 5 invocations, 24 absurd declared shapes (2^32 x 2^32, zero-masked overflow, 2^64 +- 1, 300 / 22000 axes) x 12 invocations, 35 option values at and beyond their bounds (--precision 65535/65536/2^32/2^64, -p 2^63.., axis 2^64-1, delimiters), 29 contradictory sample lists / projections / thread counts for create, "
+             "and a mutation stream of 2400 (thorough 50000) inputs (bit flips, byte edits, deletions, duplications, truncations, splices, huge numbers, separators) over text / npy spectra, VCF, raw BCF and BGZF payloads re-wrapped in valid blocks; where the model predicts the class it must match, elsewhere the run must end in OK or in a non-zero status with a diagnostic on stderr; "
+             "non-trivial = distinct request whose class the model predicts, or any run that ends in a diagnosed error",
+        exhaustive=True, assumptions=["the binary is the debug build the test suite uses (overflow checks on); in-process cases run under catch_unwind", "noodles / clap / nom / flate2 are exercised, not modelled; 14 panic sites inside noodles-bcf 0.32.0 (`todo!` on reserved typed values, split_at on zero alleles) are listed in known_findings.json and reported as KNOWN-FINDING"],
+        correspondence_only=["absence of panics in third-party parsing of arbitrary VCF/BCF bytes (explored by the mutation stream)", "clap's handling of option values (explored)"],
     ),
 })
